@@ -222,7 +222,8 @@ std::string genRV(Rng& r, const Args& a) {
     else if (c < 45) { os << T << "clear"; s = 0; }
     else if (c < 55) { long k = sizeArg(); os << T << "resize " << k; s = k; }
     else if (c < 63 && s > 0) { os << T << "set " << r.below(s) << " " << v; }
-    else if (c < 70) { os << T << "at " << (s > 0 && r.coin() ? (long)r.below(s) : r.range(0, n + 1)); }
+    else if (c < 70) { long q = (long)r.below(3);   // inside, exactly at size() (the first index that must throw) / size()-1, anywhere up to n+1
+      os << T << "at " << (q == 0 && s > 0 ? (long)r.below(s) : q == 1 ? (r.coin(3, 4) || s == 0 ? s : s - 1) : (long)r.range(0, n + 1)); }
     else if (c < 74) { os << T << "fill " << v; }
     else if (c < 77) { os << T << "swap"; std::swap(size[0], size[1]); }
     else if (c < 80) { os << T << "asg"; s = size[1 - t]; }
